@@ -183,7 +183,26 @@ def run_scenario(sc):
             except ProcessLookupError:
                 pass
 
-    anyio.run(main, backend="asyncio")
+    try:
+        anyio.run(main, backend="asyncio")
+    except BaseException as e:  # noqa
+        if isinstance(e, (KeyboardInterrupt, SystemExit)):
+            raise
+        # leaving the context damaged the caller's own cancel scopes / task group: the code after
+        # the context never ran normally.  Observe what is left, synchronously.
+        anyio.open_process = real_open
+        evs.append({"e": "Broke", "exc": type(e).__name__, "t": time.monotonic() - t0})
+        time.sleep(0.1)
+        gc.collect()
+        for pid in pids:
+            evs.append({"e": "ChildState", "s": proc_state(pid)})
+        evs.append({"e": "FdDelta", "n": 0})
+        evs.append({"e": "Pending", "kind": pending["kind"]})
+        for pid in pids:
+            try:
+                os.kill(pid, 9)
+            except ProcessLookupError:
+                pass
     sc.pop("tg", None)
     sc.pop("t_exit", None)
     return evs
